@@ -267,6 +267,20 @@ def worker(shard):
                 check_read(mido, 1, 480, [[(s, 1) for s in syms]], acc, 0)
                 check_write(mido, 1, 480, [[(s, 1) for s in syms]], acc)
         check_read(mido, 1, 480, [[('cc0', 0)] * 4, [('on1', 1)] * 3], acc, 1)
+    elif kind == 'long':
+        # long payloads (block-wise readers/writers), followed by other
+        # events and by another track
+        fam = shard[1]
+        for n in (127, 128, 255, 256, 1023, 1024, 1025, 2047, 2048, 2049,
+                  4097, 5000, 16383, 16384, 70000):
+            sym = f'{fam}{n}'
+            for specs in ([[('on0', 1), (sym, 2), ('on0b', 0), ('cc0', 3)]],
+                          [[(sym, 0)], [('on1', 1), (sym, 1), ('prog', 2)]],
+                          [[(sym, 0), (sym, 128), ('eot', 0)]]):
+                check_read(mido, 1, 480, specs, acc, 1 if n < 3000 else 0)
+                check_write(mido, 1, 480, specs, acc)
+        acc.sample({'long_payloads': fam, 'lengths': [127, 1024, 1025, 70000]},
+                   cap=1)
     elif kind == 'clip':
         first = shard[1]
         for second in ('on0', 'prog', 'pitch', 'text1', 'sysex1'):
@@ -293,6 +307,7 @@ def run():
     if thorough:
         shards += [('read', 0, s, nr, dev) for s in SYMBOLS]
     shards += [('clip', s) for s in ('on0', 'off0', 'cc0', 'prog', 'pitch')]
+    shards += [('long', fam) for fam in ('sysexN', 'textN', 'unkN')]
     run_shards(worker, shards, rep)
     rep.coverage['exhaustive'] = True
     rep.coverage['read_deviation_bound'] = dev
@@ -310,7 +325,9 @@ def run():
         f'plain, with clip=True and with debug=True (stdout captured): '
         f'identical messages. clip: every channel-message data byte replaced '
         f'by 0x80/0xF7/0xFF: clip=False raises, clip=True loads the list with '
-        f'127 there. Non-trivial = any non-canonical choice / every write')
+        f'127 there. long: sysex / text / unknown-meta payloads of 127..70000 '
+        f'bytes (around 2^k) followed by other events and another track, '
+        f'both directions. Non-trivial = any non-canonical choice / every write')
     rep.assumptions += [
         'system common messages stored raw are accepted as a documented '
         'mido extension of SMF',
